@@ -98,18 +98,40 @@ def run(rep, tier, seed):
             if rr["status"] in ("panic", "abort", "hang"):
                 bad = (f"determinism:{kind}:crash", {"status": rr["status"]})
                 break
-            events.append(dict(frontc.table_event(key, rr), where=f"process-{pidx}"))
+            events.append(dict(frontc.table_event(key, rr, with_err=True), where=f"process-{pidx}"))
             # repetitions inside that process (sequential and in threads) are compared by the runner itself
             if rr.get("rep_differing"):
                 d = rr["rep_differing"][0]
-                events.append(dict(frontc.table_event(key, {"status": d["status"], "out": d.get("out")}), where=f"process-{pidx}-thread"))
+                events.append(dict(frontc.table_event(key, {"status": d["status"], "out": d.get("out"), "err": d.get("err")}, with_err=True),
+                                   where=f"process-{pidx}-thread"))
         if bad:
             rep.violation(bad[0], {"kind": kind, "xml": vlib.trunc(xml, 1500), "cfg": cfg, **bad[1]})
+    # the command's own report of a failure (message on stderr, exit status) in fresh processes
+    import tempfile
+    svgdx_bin, _server_bin = vlib.build_bins()
+    cli_keys = {}
+    with tempfile.TemporaryDirectory(dir=vlib.WORK) as wd:
+        for j, (kind, xml, cfg) in enumerate(ks):
+            if kind != "errors":
+                continue
+            key = frontc.key_of(xml, cfg) + "#cli"
+            cli_keys[key] = (kind, xml, cfg)
+            for pidx in range(nproc):
+                ev, p = frontc.run_cli(svgdx_bin, "file-stdout", xml, cfg, wd)
+                events.append({"e": "table", "key": key, "status": "ok" if p.returncode == 0 else "fail",
+                               "hash": frontc.h(p.stdout if p.returncode == 0 else p.stderr), "empty": False, "where": f"cli-process-{pidx}",
+                               "text": p.stderr.decode("utf-8", "replace")[:300]})
     rejected, n = frontc.validate_history(events, "c06")
     rep.notes["history_events"] = len(events)
     by_key = {frontc.key_of(xml, cfg): (kind, xml, cfg) for kind, xml, cfg in ks}
+    by_key.update(cli_keys)
     for ev in rejected:
         kind, xml, cfg = by_key[ev["key"]]
+        if ev["key"].endswith("#cli"):
+            rep.violation("determinism:errors:cli-message-differs", {"kind": kind, "xml": vlib.trunc(xml, 2000), "cfg": cfg, "where": ev.get("where"),
+                          "detail": "the svgdx command reported the same failing input differently in two fresh processes",
+                          "observed_variants": list(dict.fromkeys(e.get("text") for e in events if e["key"] == ev["key"]))[:3]})
+            continue
         outs = []
         for res in runs:
             for j2, (k2, x2, c2) in enumerate(ks):
